@@ -184,6 +184,40 @@ def csv_oracle(r):
     return fails
 
 
+def views_inert_failures(r, n):
+    """A view whose local variable or filter cannot be evaluated for a merchant is inapplicable to that merchant — and ONLY that view:
+    the other views list exactly what they list when the failing view is deleted from the file."""
+    from . import c10
+    from tally import section_engine as SE, analyzer
+    fails = []
+    for _ in range(n):
+        bm = c10.by_merchant_of(c10.gen_transactions(r))
+        gname = r.choice(['lim', 'big', 'thr'])
+        gl = [(gname, r.choice(['100', 'total / 2', 'months * 10']))] + ([('other', 'payments')] if r.random() < 0.4 else [])
+        good = [{'name': 'Uses global', 'locals': [], 'filter': f'total > {gname}'}, {'name': 'Plain', 'locals': [], 'filter': 'months >= 1'},
+                {'name': 'Also global', 'locals': [('k', f'{gname} * 2')], 'filter': f'total < k or total >= {gname}'}]
+        bad = {'name': 'Broken', 'locals': [(r.choice([gname, gname.upper(), 'k', 'other']), r.choice(['total + "s"', 'nosuch + 1', 'max(by(12))', 'payments.x']))],
+               'filter': r.choice([f'total > {gname}', 'total > "x"', f'{gname} > 0'])}
+        pos = r.randint(0, len(good))
+        with_bad = c10.render_views({'globals': gl, 'sections': good[:pos] + [bad] + good[pos:]})
+        without = c10.render_views({'globals': gl, 'sections': good})
+        try:
+            a = analyzer.classify_by_sections(bm, SE.parse_sections(with_bad), 12)
+            b = analyzer.classify_by_sections(bm, SE.parse_sections(without), 12)
+        except SE.SectionParseError:
+            continue
+        except Exception as e:      # noqa
+            fails.append({'class': 'views-abort', 'exception': type(e).__name__, 'views': with_bad, 'merchants': c10.bm_to_json(bm)})
+            break
+        va = {k: sorted(n2 for n2, _ in v) for k, v in a.items() if k != 'Broken'}
+        vb = {k: sorted(n2 for n2, _ in v) for k, v in b.items()}
+        if va != vb:
+            fails.append({'class': 'failing-view-affects-other-views', 'views': with_bad, 'merchants': c10.bm_to_json(bm),
+                          'observed (other views, failing view present)': va, 'required (failing view deleted)': vb})
+            break
+    return fails
+
+
 def cli_oracle(r):
     from . import c17
     bad = r.choice(BAD_MATCH)
@@ -255,6 +289,18 @@ def run(ctx):
         replay_items.append((f, txn, r.choice(['first_match', 'most_specific'])))
     aborted = 0
     nbatch = 0
+    if ctx.replay and ce.get('class') == 'failing-view-affects-other-views':
+        from . import c10
+        from tally import section_engine as SE, analyzer
+        import re as _re
+        bm = c10.bm_from_json(ce['merchants'])
+        without = _re.sub(r'\n\[Broken\]\n(?:[^\[]*\n)*?(?=\n\[|\Z)', '\n', ce['views'])
+        a = analyzer.classify_by_sections(bm, SE.parse_sections(ce['views']), 12)
+        b2 = analyzer.classify_by_sections(bm, SE.parse_sections(without), 12)
+        va = {k: sorted(n2 for n2, _ in v) for k, v in a.items() if k != 'Broken'}
+        vb = {k: sorted(n2 for n2, _ in v) for k, v in b2.items() if k != 'Broken'}
+        if va != vb:
+            prop_fail.append(dict(ce))
     if ctx.replay and 'sequence' in ce and 'file' in ce:
         from tally import merchant_engine as ME
         text = GR.render_rules(ce['file'])
@@ -303,6 +349,8 @@ def run(ctx):
     ncsv = 0 if ctx.replay else (6 if ctx.quick else 60)
     for _ in range(ncsv):
         prop_fail.extend(csv_oracle(r))
+    if not ctx.replay:
+        prop_fail.extend(views_inert_failures(r, 60 if ctx.quick else 2000))
     ncli = 0 if ctx.replay else (3 if ctx.quick else 25)
     for _ in range(ncli):
         prop_fail.extend(cli_oracle(r))
@@ -317,7 +365,7 @@ def run(ctx):
                        'type errors, raw and through the expression root; (3) generated rule files with failing match / let / field / tag / '
                        'variable / transform expressions × transactions through MerchantEngine.match (oracle: completes, equals the file with '
                        'failing rules deleted; a run of near-duplicate items — some of which make a rule fail — through ONE engine equals fresh engines; correspondence with the full model); (4) parse_generic_csv and `python -m tally up` with '
-                       'ill-typed rules and view filters. Non-trivial = the outcome is an exception class or a rule file containing a failing expression')
+                       'ill-typed rules and view filters; views files with a failing view (local variable shadowing a global, ill-typed filter) against the same file without it. Non-trivial = the outcome is an exception class or a rule file containing a failing expression')
     ctx.notes['runs_of_near_duplicate_items_through_one_engine'] = nbatch
     ctx.notes['table_outcomes'] = st1['outcomes']
     ctx.notes['random_outcomes'] = st2['outcomes']
